@@ -7,6 +7,7 @@ use btdht::{InfoHash, MainlineDht};
 use futures_util::StreamExt;
 use std::collections::HashMap;
 use std::net::{IpAddr, Ipv4Addr, Ipv6Addr, SocketAddr};
+use std::sync::{Arc, Mutex};
 use std::time::Duration;
 
 #[derive(Clone, Copy, Debug, PartialEq, Eq)]
@@ -382,4 +383,79 @@ pub async fn run_search(
 /// Await an API future with a virtual-time limit; `None` = did not complete.
 pub async fn within<T>(limit: Duration, fut: impl std::future::Future<Output = T>) -> Option<T> {
     tokio::time::timeout(limit, fut).await.ok()
+}
+
+// ---------------------------------------------------------------------------------------------
+// API hammer: bursts of cheap API calls issued in the very scheduler instant in which a datagram
+// reaches the node (and the instants right after it, separated by `yield_now`), so that commands
+// race with whatever the delivery triggers inside the node: the bootstrap worker publishing a new
+// state, the handler starting or finishing a search, a refresh round. Real callers on other
+// threads produce exactly these interleavings; under the single-threaded virtual-time runtime they
+// have to be produced on purpose.
+
+#[derive(Default)]
+pub struct HammerStats {
+    pub bursts: u64,
+    pub calls: u64,
+    /// Calls that did not complete within 2 virtual seconds or reported a dead node: (time, what).
+    pub failed: Vec<(Micros, String)>,
+}
+
+pub fn api_hammer(net: &Net, dht: &MainlineDht, addr: SocketAddr, seed: u64, p: f64, max_bursts: u64) -> Arc<Mutex<HammerStats>> {
+    use rand::{Rng, SeedableRng};
+    let stats: Arc<Mutex<HammerStats>> = Default::default();
+    let (net2, dht2, stats2) = (net.clone(), dht.clone(), stats.clone());
+    let mut rng = rand_chacha::ChaCha8Rng::seed_from_u64(seed ^ 0x4a11_e7);
+    let mut left = max_bursts;
+    net.add_observer(addr, move |_w| {
+        if left == 0 || !rng.gen_bool(p) {
+            return;
+        }
+        left -= 1;
+        stats2.lock().unwrap().bursts += 1;
+        // 1..3 concurrent callers; each call is followed by a yield or not (tokio defers a yielding
+        // task until the run queue has drained, a non-yielding caller re-issues at once: the two
+        // interleave differently with the node's own tasks)
+        for _caller in 0..rng.gen_range(1..=3) {
+        let rounds = rng.gen_range(2..=8);
+        let pre_yields = rng.gen_range(0..3);
+        let kinds: Vec<(u8, bool)> = (0..rounds).map(|_| (rng.gen_range(0..4), rng.gen_bool(0.5))).collect();
+        let (net3, dht3, stats3) = (net2.clone(), dht2.clone(), stats2.clone());
+        tokio::spawn(async move {
+            for _ in 0..pre_yields {
+                tokio::task::yield_now().await;
+            }
+            let lim = Duration::from_secs(2);
+            for (k, yield_after) in kinds {
+                let bad = match k {
+                    0 | 1 => match within(lim, dht3.get_state()).await {
+                        Some(Some(s)) if s.is_running => None,
+                        other => Some(format!("get_state() = {:?}", other.map(|s| s.map(|s| s.is_running)))),
+                    },
+                    2 => match within(lim, dht3.load_contacts()).await {
+                        Some(Ok(_)) => None,
+                        Some(Err(_)) => Some("load_contacts() failed".to_owned()),
+                        None => Some("load_contacts() pending".to_owned()),
+                    },
+                    _ => match within(lim, dht3.local_addr()).await {
+                        Some(Ok(_)) => None,
+                        Some(Err(_)) => Some("local_addr() failed".to_owned()),
+                        None => Some("local_addr() pending".to_owned()),
+                    },
+                };
+                {
+                    let mut st = stats3.lock().unwrap();
+                    st.calls += 1;
+                    if let Some(b) = bad {
+                        st.failed.push((net3.now(), b));
+                    }
+                }
+                if yield_after {
+                    tokio::task::yield_now().await;
+                }
+            }
+        });
+        }
+    });
+    stats
 }
